@@ -15,7 +15,7 @@ PLAN = {
 BUDGET = {"quick": 50, "thorough": 900}
 RULE = (
     "1-8 messages with due time T = now + d, d from {-1 h .. -1 ms, 0, 1 ms .. 999 ms, 1-30 s, 1 h, 1 y}, created through "
-    "Job(deferred_until=...) or through next_execution_time (the shape of a retry / reschedule), on one queue with 1-3 "
+    "Job(deferred_until=...) or through next_execution_time (the shape of a retry / reschedule; with or without a period of its own), on one queue with 1-3 "
     "priorities (20%: a far-future message first, sooner-due ones enqueued 1-4 s later while the consumer idles); random clock phase inside the second; a NORMAL consumer with free capacity starts before or after the enqueues "
     "at a seeded polling phase and acks what it gets; optionally a DELAYED-category observer takes and rejects messages. "
     "Oracle: (i) no message leaves the broker's waiting/delayed storage towards a NORMAL consumer earlier than T - 1 ms (take "
@@ -56,7 +56,7 @@ def gen(rng, broker, tier):
             d = cap
         if 0 < d <= 30_000_000 and rng.random() < 0.5:
             d = rng.randint(1, d)
-        msgs.append({"id": f"m{i}", "delay_us": d, "via": rng.choice(["job", "params"]), "prio": rng.choice(prios),
+        msgs.append({"id": f"m{i}", "delay_us": d, "via": rng.choice(["job", "params", "params-recurring"]), "prio": rng.choice(prios),
                      "at_us": rng.choice([0, 0, rng.randint(0, 2_000_000)])})
     return {"msgs": msgs, "consumer_start_us": rng.choice([0, 0, rng.randint(0, 3_000_000), rng.randint(0, 15_000_000)]),
             "observer": rng.random() < 0.25, "observer_at_us": rng.randint(0, 3_000_000), "patient": rng.random() < 0.5,
@@ -98,6 +98,12 @@ async def _main(sim, sc, out):
                 job = r.Job("t", queue="q", priority=r.PrioritiesT(m["prio"]), id_=m["id"], deferred_until=T,
                             args={"x": m["id"]}, _connection=conn)
                 await job.enqueue()
+            elif m["via"] == "params-recurring":
+                # the shape of a retried recurring job: its own period plus the explicit next execution time, which decides
+                key = RoutingKey(id_=m["id"], topic="t", queue="q", priority=m["prio"])
+                await conn.message_broker.enqueue(key, "{}", Parameters(
+                    delay=DelayProperties(next_execution_time=T, defer_by=timedelta(seconds=m.get("period_s", 7))),
+                    timestamp=sim.clock.now()))
             else:
                 key = RoutingKey(id_=m["id"], topic="t", queue="q", priority=m["prio"])
                 await conn.message_broker.enqueue(key, "{}", Parameters(delay=DelayProperties(next_execution_time=T),
